@@ -50,6 +50,11 @@ func c19Cases(timeout float64) []c19Case {
 		{Mode: "ok-multiline", script: "printf '\\n1\\n2\\n\\n'", wantOut: "1\n2", mayOutput: true},
 		{Mode: "exit1-with-output", script: "echo 17; echo oops >&2; exit 1", mustErr: true},
 		{Mode: "exit3-no-output", script: "exit 3", mustErr: true},
+		// a failing tool that is verbose about it: tens of thousands of short lines on stderr (what os/exec keeps of them
+		// ends up in fan2go's log)
+		{Mode: "exit3-with-many-stderr-lines", script: "yes x | head -c 200000 >&2; exit 3", mustErr: true},
+		{Mode: "many-stdout-lines", script: "yes x | head -c 200000", mayOutput: true, mayErr: true, anyOut: true},
+		{Mode: "exit0-with-many-stderr-lines", script: "yes 'warning: retry' | head -c 200000 >&2; echo 42", wantOut: "42", mayOutput: true},
 		{Mode: "killed-by-signal", script: "kill -9 $$", mustErr: true},
 		{Mode: "not-executable", mustErr: true},
 		{Mode: "missing", mustErr: true},
@@ -63,6 +68,11 @@ func c19Cases(timeout float64) []c19Case {
 		{Mode: "unsearchable-parent-symlink", mustErr: true},
 		{Mode: "bad-exec-format", mustErr: true},
 		{Mode: "missing-interpreter", mustErr: true},
+		// scripts without a "#!" line (the kernel refuses them, a shell would run them): an error or the output,
+		// but within the bound whatever the script then does
+		{Mode: "no-shebang-prints-value", script: "echo 42", mayErr: true, mayOutput: true, wantOut: "42"},
+		{Mode: "no-shebang-sleeps-beyond-deadline", script: "sleep " + over + "; echo 5", mustErr: true},
+		{Mode: "no-shebang-grandchild-holds-stdout", script: "(sleep " + over + " &) ; echo 42; exit 0", mayErr: true, mayOutput: true, wantOut: "42"},
 		{Mode: "vanishing", mayErr: true, mayOutput: true, wantOut: "7"},
 		// the executable is held open for writing by someone (updater, editor): it cannot be started (ETXTBSY)
 		{Mode: "text-file-busy", mustErr: true},
@@ -127,6 +137,8 @@ func c19Build(dir string, c *c19Case, n int) string {
 		_ = os.WriteFile(path, []byte{0x7f, 'X', 'Y', 'Z', 0, 1, 2, 3, 4, 5, 6, 7}, 0755)
 	case "missing-interpreter":
 		_ = os.WriteFile(path, []byte("#!/nonexistent/interpreter\necho 1\n"), 0755)
+	case "no-shebang-prints-value", "no-shebang-sleeps-beyond-deadline", "no-shebang-grandchild-holds-stdout":
+		_ = os.WriteFile(path, []byte(c.script+"\n"), 0755)
 	case "vanishing", "text-file-busy":
 		_ = os.WriteFile(path, []byte("#!/bin/sh\necho 7\n"), 0755)
 	default:
